@@ -124,6 +124,28 @@ class Harness:
         return results
 
 
+class HashedSet:
+    """set of cases kept as 64-bit digests (the thorough tiers see millions of distinct inputs)"""
+
+    def __init__(self):
+        self.h = set()
+
+    @staticmethod
+    def _d(x):
+        b = x.encode("utf-8", "surrogatepass") if isinstance(x, str) else repr(x).encode("utf-8", "surrogatepass")
+        return int.from_bytes(hashlib.blake2b(b, digest_size=8).digest(), "big")
+
+    def add(self, x):
+        self.h.add(self._d(x))
+
+    def update(self, xs):
+        for x in xs:
+            self.h.add(self._d(x))
+
+    def __len__(self):
+        return len(self.h)
+
+
 class Ctx:
     def __init__(self, prop, tier, seed, replay=None):
         self.prop = prop
@@ -139,7 +161,7 @@ class Ctx:
         self.samples = []
         self.configs = []
         self.mismatches = []       # list of dict(sig, detail, case)
-        self.distinct_cases = set()
+        self.distinct_cases = HashedSet()
         self.notes = []
         self.assumptions = []
         self.tool_errors = []
